@@ -162,15 +162,15 @@ def run_actions(ctx, cases, label=""):
 def check_c49(ctx):
     q = ctx.tier == "quick"
     defs, examples = doc_constants()
-    runs = [{"KEYS": '{"a", "b"}', "MAXPAIRS": 3}, {"KEYS": '{"a", "b", "ab"}', "MAXPAIRS": 2},
-            {"KEYS": '{"a", "u n", "u+n", "u%n"}', "MAXPAIRS": 2}] if q else \
-           [{"KEYS": '{"a", "b", "ab", "ba"}', "MAXPAIRS": 3},
-            {"KEYS": '{"a", "b", "u n", "u+n", "u%n", "u&n", "u=n"}', "MAXPAIRS": 2}]
+    runs = [{"KEYS": '{"a", "b"}', "MAXPAIRS": 3, "JUNK": "FALSE"}, {"KEYS": '{"a", "b", "ab"}', "MAXPAIRS": 2, "JUNK": "TRUE"},
+            {"KEYS": '{"a", "u n", "u+n", "u%n"}', "MAXPAIRS": 2, "JUNK": "FALSE"}] if q else \
+           [{"KEYS": '{"a", "b", "ab", "ba"}', "MAXPAIRS": 3, "JUNK": "TRUE"},
+            {"KEYS": '{"a", "b", "u n", "u+n", "u%n", "u&n", "u=n"}', "MAXPAIRS": 2, "JUNK": "FALSE"}]
     cases = []
     seen = set()
     for r in runs:
         d = dict(defs, **r)
-        ctx.cov["constants"]["Actions(%s,%s)" % (r["KEYS"], r["MAXPAIRS"])] = d
+        ctx.cov["constants"]["Actions(%s,%s,junk=%s)" % (r["KEYS"], r["MAXPAIRS"], r["JUNK"])] = d
         # one TLC run: PostOK / Documented checked and the case printed in every enumerated state
         g = ctx.tlc_must_pass(SPEC, "GenActions", "Actions_MC.cfg", defines=d, timeout=1500)
         if not g.cases or len(g.cases) != g.distinct:
